@@ -957,13 +957,31 @@ func (c *Conn) handleBdat(arg string) {
 		c.writeResponse(501, EnhancedCode{5, 5, 4}, "Missing chunk size argument")
 		return
 	}
+
+	// ParseUint instead of Atoi so we will not accept negative values.
+	size, sizeErr := strconv.ParseUint(args[0], 10, 32)
+
+	// The chunk follows the command line no matter whether the command is
+	// accepted: when it is refused the chunk still has to be skipped, or it
+	// would be interpreted as commands.
+	discardChunk := func() {
+		if sizeErr != nil {
+			return
+		}
+		c.lineLimitReader.LineLimit = 0
+		io.Copy(ioutil.Discard, io.LimitReader(c.text.R, int64(size)))
+		c.lineLimitReader.LineLimit = c.server.MaxLineLength
+	}
+
 	if len(args) > 2 {
 		c.writeResponse(501, EnhancedCode{5, 5, 4}, "Too many arguments")
+		discardChunk()
 		return
 	}
 
 	if !c.fromReceived || len(c.recipients) == 0 {
 		c.writeResponse(502, EnhancedCode{5, 5, 1}, "Missing RCPT TO command.")
+		discardChunk()
 		return
 	}
 
@@ -971,14 +989,13 @@ func (c *Conn) handleBdat(arg string) {
 	if len(args) == 2 {
 		if !strings.EqualFold(args[1], "LAST") {
 			c.writeResponse(501, EnhancedCode{5, 5, 4}, "Unknown BDAT argument")
+			discardChunk()
 			return
 		}
 		last = true
 	}
 
-	// ParseUint instead of Atoi so we will not accept negative values.
-	size, err := strconv.ParseUint(args[0], 10, 32)
-	if err != nil {
+	if sizeErr != nil {
 		c.writeResponse(501, EnhancedCode{5, 5, 4}, "Malformed size argument")
 		return
 	}
@@ -987,7 +1004,7 @@ func (c *Conn) handleBdat(arg string) {
 		c.writeResponse(552, EnhancedCode{5, 3, 4}, "Max message size exceeded")
 
 		// Discard chunk itself without passing it to backend.
-		io.Copy(ioutil.Discard, io.LimitReader(c.text.R, int64(size)))
+		discardChunk()
 
 		c.reset()
 		return
@@ -1037,7 +1054,7 @@ func (c *Conn) handleBdat(arg string) {
 	c.lineLimitReader.LineLimit = 0
 
 	chunk := io.LimitReader(c.text.R, int64(size))
-	_, err = io.Copy(c.bdatPipe, chunk)
+	_, err := io.Copy(c.bdatPipe, chunk)
 	if err != nil {
 		// Backend might return an error early using CloseWithError without consuming
 		// the whole chunk.
